@@ -5,7 +5,7 @@ import sys
 from . import common
 
 
-DAV = ["C01", "C02", "C03", "C06", "C07", "C08", "C09", "C14", "C15", "C16", "C17"]
+DAV = ["C01", "C02", "C03", "C06", "C07", "C08", "C09", "C14", "C15", "C17"]
 
 
 def setup():
@@ -62,6 +62,9 @@ def main(argv):
     if prop in DAV:
         from . import davcheck
         return davcheck.run(prop, tier, seed, replay=a.replay)
+    if prop == "C16":
+        from . import hrefcheck
+        return hrefcheck.run(prop, tier, seed, replay=a.replay)
     if prop == "C13":
         from . import pathcheck
         return pathcheck.run(prop, tier, seed, replay=a.replay)
